@@ -437,3 +437,99 @@ def custom_isolation_table(ctx, rule):
         rule.violation(f'custom map isolation `{text}`', 'soupsieve/css_parser.py (parse_pseudo_class_custom / process_custom)',
                        f'compiling {text!r} with custom={second!r} after compiling it with custom={first!r} gives {got.brief(160)}, a fresh process '
                        f'gives {fresh.brief(160)}: what a custom selector expands to depends on maps that were compiled earlier')
+
+
+def _work(ctx, text, custom=None, cap=3_000_000):
+    """(evaluator steps + regex matcher steps) needed to compile `text`, or None if a budget ran out."""
+    from .. import rematch
+    from ..interp import Obj, Raised, call_function
+    from .sem import strict_lower
+    stats = {}
+    opts = {'regex_engine': True, 'real_immutable': True, 'max_depth': 400, 'max_steps': cap, 'stats': stats,
+            'persist': ctx._cache.setdefault('e2e-persist', {})}
+    stubs = {'util.lower': strict_lower}
+    rematch.STEPS[0] = 0
+    old = rematch.BUDGET[0]
+    rematch.BUDGET[0] = cap
+    total = 0
+    try:
+        me = Obj(_cls='css_parser.CSSParser', _name='parser')
+        table = call_function(ctx, 'css_parser.process_custom', [dict(custom)], {}, stubs, None, opts) if custom is not None else None
+        total += stats.get('steps', 0)
+        call_function(ctx, 'css_parser.CSSParser.__init__', [text, table, 0], {}, stubs, me, opts)
+        total += stats.get('steps', 0)
+        call_function(ctx, 'css_parser.CSSParser.process_selectors', [], {}, stubs, me, opts)
+    except Raised:
+        pass
+    except RecursionError:
+        return None
+    except Unsupported as e:
+        if 'budget' in str(e):
+            return None
+        raise AnalysisError(f'work of compiling a text of length {len(text)}: outside the evaluable fragment: {e}')
+    finally:
+        rematch.BUDGET[0] = old
+    return total + stats.get('steps', 0) + rematch.STEPS[0]
+
+
+FAMILIES = [
+    # (description, text(n) [, custom(n)])  - inputs whose size grows linearly with n
+    ('white space run between compounds', lambda n: 'a' + ' ' * n + 'b'),
+    ('CR LF run between compounds', lambda n: 'a' + '\r\n' * n + 'b'),
+    ('CR LF run before an invalid character', lambda n: 'a' + '\r\n' * n + '$'),
+    ('comments between compounds', lambda n: 'a' + ' /* c */' * n + ' b'),
+    ('white space and comments before an invalid character', lambda n: 'a' + ' /**/' * n + '!'),
+    ('unterminated comment openers', lambda n: 'a ' + '/*' * n),
+    ('chain of child combinators', lambda n: 'a' + ' > b' * n),
+    ('list of alternatives', lambda n: 'a' + ', a' * n),
+    ('nested :is()', lambda n: ':is(' * min(n, 40) + 'a' + ')' * min(n, 40)),
+    ('nested :not() left open', lambda n: ':not(' * min(n, 40) + 'a'),
+    ('long attribute value', lambda n: '[a="' + 'x' * n + '"]'),
+    ('long unterminated attribute value', lambda n: '[a="' + 'x' * n),
+    ('attribute with white space run before the bracket', lambda n: '[a=b' + ' ' * n + ']'),
+    ('attribute with white space run and no bracket', lambda n: '[a=b' + ' ' * n),
+    ('hex escapes', lambda n: 'a' + '\\61 ' * n),
+    ('backslashes at the end', lambda n: 'a' + '\\' * n),
+    ('class chain', lambda n: 'a' + '.b' * n),
+    ('white space inside :nth-child()', lambda n: ':nth-child(' + ' ' * n + '2n+1' + ' ' * n + ')'),
+    (':nth-child() with a white space run and no parenthesis', lambda n: ':nth-child(2n+1' + ' ' * n),
+    (':lang() value list', lambda n: ':lang(' + ', '.join(['en'] * n) + ')'),
+    (':lang() value list left open', lambda n: ':lang(' + ', '.join(['"en"'] * n)),
+    (':-soup-contains() with a long quoted value left open', lambda n: ':-soup-contains("' + 'x ' * n),
+    ('long identifier', lambda n: 'a' * n + '$'),
+    ('dashes', lambda n: '-' * n),
+    ('trailing white space and comments', lambda n: 'a' + ' /**/ ' * n),
+]
+
+
+def scaling_table(ctx, rule, sizes=(6, 12, 24)):
+    """Work (evaluator steps + steps of the analyser's backtracking regex matcher, which explores what sre explores) needed to
+    compile inputs of growing size, family by family: doubling the input must not multiply the work by more than 12 (that is,
+    growth beyond roughly n^3.5), and no budget may run out.  Also: layered custom aliases are compiled once each."""
+    bad = None
+    for what, make in FAMILIES:
+        work = [_work(ctx, make(n)) for n in sizes]
+        ratios = [None if (a is None or b is None or a == 0) else round(b / a, 2) for a, b in zip(work, work[1:])]
+        ok = all(w is not None for w in work) and all(r is not None and r <= 12 for r in ratios)
+        rule.instance({'family': what, 'sizes': list(sizes), 'work': work, 'growth_per_doubling': ratios, 'polynomial': ok}, key=f'scale|{what}')
+        if not ok and bad is None:
+            bad = (what, make(sizes[0]), work, ratios)
+    # layered aliases: :--a0 -> ':--a1, :--a1' -> ... ; a definition must be compiled once, not once per reference
+    def layered(n):
+        cm = {f':--a{i}': f':--a{i + 1}, :--a{i + 1}' for i in range(n)}
+        cm[f':--a{n}'] = 'p'
+        return cm
+    work = [_work(ctx, ':--a0', custom=layered(n)) for n in (4, 8, 16)]
+    ratios = [None if (a is None or b is None or a == 0) else round(b / a, 2) for a, b in zip(work, work[1:])]
+    ok = all(w is not None for w in work) and all(r is not None and r <= 12 for r in ratios)
+    rule.instance({'family': 'layered custom aliases, each referenced twice', 'sizes': [4, 8, 16], 'work': work, 'growth_per_doubling': ratios, 'polynomial': ok},
+                  key='scale|custom')
+    if not ok and bad is None:
+        bad = ('layered custom aliases, each referenced twice', ':--a0 with {":--a0": ":--a1, :--a1", ...}', work, ratios)
+    rule.obligation(bad is None)
+    if bad is not None:
+        what, sample, work, ratios = bad
+        rule.violation(f'scaling `{what}`', 'soupsieve/css_parser.py',
+                       f'compiling inputs of the family "{what}" (smallest: {sample[:60]!r}) at sizes {list(sizes)} takes {work} steps '
+                       f'(None = the step budget ran out), growth per doubling {ratios}: super-polynomial work - a short pattern can keep '
+                       f'compile() busy for an unbounded time')
